@@ -500,7 +500,7 @@ def build(scn, seed=0, rng=None, const_fn=None, signatures=True, name_fn=None):
         g.op(sg, bc, ins, outs)
     sg.inputs = list(sub["gins"])
     sg.outputs = list(sub["gouts"])
-    if signatures:
+    if signatures and si not in scn.get("nosig", ()):      # ("nosig": subgraphs that no signature def exports)
       key = "serving_default" if si == 0 else "sig%d" % si
       sins, souts = [("x%d" % i, t) for i, t in enumerate(sub["gins"])], [("o%d" % i, t) for i, t in enumerate(sub["gouts"])]
       if sub.get("sigrev"):      # the signature lists its entries in another order than the subgraph
